@@ -55,7 +55,46 @@ def handleConstruct (c : Cls) (given : List Key) : String :=
   " ".intercalate ((Gen.metaKeys c).map fun k =>
     showKey k ++ "=" ++ (match a k with | .kw k' => (if k' == k then "kw" else "other") | _ => "other"))
 
+/-! field-level provenance of the corrections: the model evaluated on symbolic values (tags) -/
+
+def strSem : CSem String :=
+  { tru := "const:True", zero := "const:0", one := "const:1", fls := "const:False", affine := "const:affine",
+    darsia := "const:darsia", isTuple := fun _ => true, bbox := fun r p b => s!"bbox({r},{p},{b})",
+    makeVoxel := fun r => s!"makeVoxel({r})" }
+
+def so (o : Option String) : String := o.getD "none"
+
+def corrProvenance : List String → Option String
+  | ["TypeCorrection"] =>
+    let f := (TypeState.mk "attr:dataType").save
+    let s := (TypeFile.mk "file:data_type").load
+    some s!"save: data_type={f.data_type} | load: dataType={s.dataType}"
+  | ["DriftCorrection", roi] =>
+    let r := if roi = "roi" then some "attr:roi" else none
+    let f := (DriftState.mk "attr:base" "attr:active" "attr:padding" r).save
+    let fr := if roi = "roi" then some "file:cfgRoi" else none
+    let s := (DriftFile.mk "file:base" (some "file:cfgActive") (some "file:cfgPadding") fr).load strSem
+    some s!"save: base={f.base} cfgActive={so f.cfgActive} cfgPadding={so f.cfgPadding} cfgRoi={so f.cfgRoi} | load: base={s.base} active={s.active} padding={s.padding} roi={so s.roi}"
+  | ["CurvatureCorrection"] =>
+    let f := (CurvState.mk "attr:config" "attr:interpolationOrder").save
+    let s := (CurvFile.mk "file:config" (some "file:interpolation_order")).load strSem
+    some s!"save: config={f.config} interpolation_order={so f.interpolation_order} | load: config={s.config} interpolationOrder={s.interpolationOrder}"
+  | ["IlluminationCorrection"] =>
+    let f := (IllumState.mk "attr:colorspace" "attr:localScaling").save
+    let s := (IllumFile.mk "file:cfgColorspace" "file:cfgLocalScaling").load
+    some s!"save: cfgColorspace={f.cfgColorspace} cfgLocalScaling={f.cfgLocalScaling} | load: colorspace={s.colorspace} localScaling={s.localScaling}"
+  | "ColorCorrection" :: present =>
+    let g := fun (k : String) => if present.contains k then some s!"file:config.{k}" else none
+    let cfg : ColorCfg String := ⟨"file:config.roi", g "active", g "whitebalancing", g "colorbalancing", g "balancing", g "clip"⟩
+    let s := (ColorFile.mk "file:base" cfg).load strSem
+    let a := fun (k : String) => if present.contains k then some s!"attr:config.{k}" else none
+    let cfgA : ColorCfg String := ⟨"attr:config.roi", a "active", a "whitebalancing", a "colorbalancing", a "balancing", a "clip"⟩
+    let f := (ColorState.ofConfig strSem cfgA "attr:swatches").save
+    some s!"save: base={f.base} config.roi={f.config.roi} config.active={so f.config.active} config.whitebalancing={so f.config.whitebalancing} config.colorbalancing={so f.config.colorbalancing} config.balancing={so f.config.balancing} config.clip={so f.config.clip} | load: swatches={s.swatches} active={s.active} whitebalancing={s.whitebalancing} colorbalancing={s.colorbalancing} balancing={s.balancing} clip={s.clip} roi={s.roi}"
+  | _ => none
+
 def dispatch : List String → Option String
+  | "corr" :: rest => corrProvenance rest
   | "construct" :: c :: ks => do
     let c ← parseCls c
     let ks ← ks.mapM parseKey
